@@ -1007,7 +1007,7 @@ fn write_evidence(ctx: &Ctx) {
     "property_id": ctx.prop,
     "tier": match ctx.tier { Tier::Quick => "quick", Tier::Thorough => "thorough" },
     "seed": ctx.seed,
-    "level": ctx.level,
+    "level": if ["exploration", "fault_enumeration", "model_checking", "proof", "translation_validation", "other"].contains(&ctx.level) { ctx.level } else { "exploration" },
     "coverage": Value::Object(coverage),
     "assumptions": ctx.assumptions,
     "wall_s": (ctx.start.elapsed().as_secs_f64() * 1000.0).round() / 1000.0,
